@@ -162,7 +162,7 @@ func judgeC19(w *World, r *Result) *Violation {
 	mk := func(sig, detail string) *Violation {
 		return &Violation{Property: "C19", Sig: sig, Detail: detail, Worlds: []*World{w}, Mode: "c19", Expect: []string{digest(r)}}
 	}
-	if r.Exit == -1 || r.Exit == -2 {
+	if r.Exit == -1 || r.Exit == -2 || r.Exit == -3 {
 		return mk("self-regenerate-crashed", r.Panic)
 	}
 	if len(r.Fired) > 0 {
